@@ -478,6 +478,9 @@ def run_shard(spec, emit):
                 info = case.meta.components.get(ComponentKind(attr))
                 if info is not None and declared[location]:
                     labels[location] = info.mode
+                elif info is not None and info.mode == GenerationMode.NEGATIVE and getattr(case, attr) is None:
+                    # nothing is declared for this location and nothing is sent there, yet the case says that part was negated
+                    viols.append((f"C02/part-labelled-negative-is-absent:{location}:nothing-declared-there", f"{attr} is None, declared {sorted(k for k, v in declared.items() if v)}"))
             info = case.meta.components.get(ComponentKind.BODY)
             if info is not None and bodies:
                 labels["body"] = info.mode
